@@ -14,6 +14,7 @@ RULE = ("random histories (up to 14 operations) over Qubit(), single/two-qubit g
         "Oracle after every flush: no controller fault, and {q.qubit_id for q in connection.active_qubits} == "
         "{v : unit_module[v] is not None}."
         ' A quarter of the histories follow an earlier host program on the same controller that closed while holding 0..budget qubits (same application id and budget). '
+        " A program that uses a handle it has given back (gate, rotation, reset, either side of a two-qubit gate): the SDK must refuse on the spot and emit nothing. Keep requests whose every allowed attempt misses the fidelity bound (known finding, judged up to the next flush). "
         "Non-trivial = the history reused a virtual ID (allocation after a release) "
         "or contained an EPR request, and has >= 2 flushes; distinct = distinct history description.")
 ASSUMPTIONS = ["SDK-side refusals at build time (ValueError / AssertionError before anything is emitted) are counted, not judged: the property speaks about emitted subroutines",
